@@ -14,6 +14,7 @@ const (
 	TooManyDirectives       = "the expansion of the macros gives too many directives"
 	TooManyIncludes         = "the project includes too many files"
 	SchemaIsTooDeep         = "the schema is nested too deep"
+	TooManyTypeReferences   = "the user types refer to each other in too many ways"
 	UnionRefersToItself     = "the type of a shortcut key cannot be a union of types that leads back to itself:"
 	ServerNotFound          = "server not found"
 	JsonRpcMethodNotFound   = "JSON-RPC method not found"
